@@ -158,6 +158,7 @@ impl Prop for C17 {
             x.plan.fdmax = Some(lim.max(1));
             scn.runs.push(x);
         }
+        super::dress(&mut scn, rng, true);
         h.check(&mut scn)?;
         Ok(())
     }
